@@ -72,6 +72,27 @@ checks = {
    "Finite alphabets; ties of descriptor sorts unconstrained.", "DESIGN.md §4, §5 C19"),
 }
 
+# extensions made after the second round of independently produced breaking changes (appended to the level text)
+addenda = {
+ "C06": " A few deep bursts (n = 1025, 1100, 2049, 4097, 5000; thorough also 8193, 10000) cross any size threshold below them.",
+ "C07": " Stranded-item clause: after the producers are done the drain keeps polling while Count() > 0 (bounded rounds), so an item that is counted but can never be obtained is reported.",
+ "C08": " Scripts include every removal entry point (Poll, Take, Pop) on an empty or emptied container against an insertion or another removal.",
+ "C09": " Jammed-pool scenarios: workerJamDuration 3 ms, all workers inside jobs of 5 virtual ms when a late submission wakes the spawn loop.",
+ "C11": " Constructor isolation: two MonadIOs from the same constructor and argument (MonadIO.Just(nil), Just(7), MonadIOJustGenerics, MonadIO.New); handlers set on one must not route the other.",
+ "C13": " Caller-supplied reply channels (AskNewByOptionsGenerics, capacity 0 and 1). Timeout series: one asker issuing 2-4 AskOnceWithTimeout calls with actor latencies now / exactly the timeout / late / never, under three sync.Pool policies and with time.Timer modelled with the channel semantics of a go 1.18 module (a fired value survives Stop/Reset); ErrActorAskTimeout is legal only once the timeout has elapsed on the virtual clock.",
+ "C15": " Pool close also with SetIsJobQueueClosedWhenClose(false); after Close returned Schedule, ScheduleWithTimeout, Invoke and InvokeWithTimeout are each tried: all must report the close and none of their jobs may run.",
+ "C16": " One PMapOption value reused for two calls (empty list, then two elements): the bound of the second call is still the option's.",
+ "C19": " All descriptor builders are derived before use, every stack from the single builder value of its prefix (a builder is a value); field-name descriptors also on a second struct type with the same field names at other positions and on pointers to rows.",
+ "C20": " Equality patterns over {7, a pointer, a struct with a pointer field, a struct, a string, nil} x probes including a different pointer to an equal value: the test is Go's ==.",
+ "C01": " Kind() / IsKind(k) for every reflect.Kind and IsPtr are compared with reflect on the stored value.",
+ "C02": " Strings include signed, padded and spaced forms.",
+ "C10": " Relay chains (a subscriber that publishes to a second Publisher) are included.",
+ "C18": " Two instances may share one http.Client (s2.SetHTTPClient(s1's client)): the request then passes the chain of the instance it was made through and the chains it wraps, each exactly once, then one transport.",
+}
+for k, v in addenda.items():
+    e = checks[k]
+    checks[k] = (e[0], e[1], e[2] + v, e[3], e[4])
+
 not_yet = "check not built yet in this round (see DESIGN.md §9 build order); no claim made"
 
 m = {
